@@ -96,9 +96,9 @@ func specPlain6(p *packets.FrameParser) bool {
 //@ requires[pre.past]       forall(k, 0, 65536, u.sentProbes[k].sendTime <= now())
 //@ ensures[C09.xor]         (ret0 == nil) != (ret1 == nil)
 //@ ensures[C09.class]       ret1 != nil ==> chain(ret1, *common.ReceiveProbeNoPktError) || chain(ret1, *common.BadPacketError)
-//@ ensures[C01+C05+C11.sound.kind]  ret0 != nil ==> specIsErr(u.parser) && (specIs4(u.parser) || specIs6(u.parser))
-//@ ensures[C01+C05+C11.sound.v4]    ret0 != nil && specIs4(u.parser) ==> specGenuine4(u, u.parser, ret0.TTL)
-//@ ensures[C01+C05+C11.sound.v6]    ret0 != nil && specIs6(u.parser) && packets.SpecQ6Next(u.parser.ICMP6.Payload) != 0 ==> specGenuine6(u, u.parser, ret0.TTL)
+//@ ensures[C01+C05+C11+C12.sound.kind]  ret0 != nil ==> specIsErr(u.parser) && (specIs4(u.parser) || specIs6(u.parser))
+//@ ensures[C01+C05+C11+C12.sound.v4]    ret0 != nil && specIs4(u.parser) ==> specGenuine4(u, u.parser, ret0.TTL)
+//@ ensures[C01+C05+C11+C12.sound.v6]    ret0 != nil && specIs6(u.parser) && packets.SpecQ6Next(u.parser.ICMP6.Payload) != 0 ==> specGenuine6(u, u.parser, ret0.TTL)
 //@ ensures[C01.addr]        ret0 != nil ==> ret0.IP == packets.SpecOuterSrc(u.parser)
 //@ ensures[C02.compl.v4]    specPlain4(u.parser) && specGenuine4(u, u.parser, specQuotedTTL4(u, u.parser)) ==> ret0 != nil && ret0.TTL == specQuotedTTL4(u, u.parser)
 //@ ensures[C02.compl.v6]    specPlain6(u.parser) && specGenuine6(u, u.parser, specQuotedTTL6(u, u.parser)) ==> ret0 != nil && ret0.TTL == specQuotedTTL6(u, u.parser)
